@@ -161,6 +161,44 @@ Section CfgSafety.
     eapply agree_le; [exact Hag | lia].
   Qed.
 
+  (* ---- the two panics on the replication path stay unreachable ---- *)
+
+  Theorem append_never_conflicts_with_committed3 s j t ldr prev pt ents lc :
+    reachable3 s -> In (AE t ldr prev pt ents lc) (msgs (base3 s)) ->
+    t = term (nodes (base3 s) j) -> term_at (log (nodes (base3 s) j)) prev = pt ->
+    try_append (log (nodes (base3 s) j)) (commit (nodes (base3 s) j)) prev ents <> None.
+  Proof.
+    intros Hr Hae -> Hpt. pose proof (inv4_reachable s Hr) as Hinv.
+    pose proof (s_2 _ _ s Hinv) as H2. pose proof (s_3a _ _ s Hinv) as H3a.
+    unfold try_append.
+    destruct (first_conflict (log (nodes (base3 s) j)) (S prev) ents) as [ci|] eqn:Hfc; [|discriminate].
+    destruct (Nat.ltb_spec (commit (nodes (base3 s) j)) ci) as [|Hge]; [discriminate|]. exfalso.
+    destruct (ae_view _ _ _ _ _ _ _ _ H2 Hae (i_log_ok _ H2 j) Hpt) as (Hprev & Hview & Hents).
+    assert (Hpos : forall e, In e ents -> 1 <= eterm e) by (intros e He; apply Hents; exact He).
+    assert (LM : lmatch (log (nodes (base3 s) j)) (firstn prev (log (nodes (base3 s) j)) ++ ents)).
+    { rewrite Hview. eapply log_ok_lmatch; [apply (i_log_ok _ H2)|].
+      apply log_ok_firstn. apply (i_llog_ok _ H2). }
+    destruct (first_conflict_some _ prev ents ci Hprev Hpos LM Hfc) as (Hci & _ & Hne & _).
+    destruct (i_ae _ H2 _ _ _ _ _ _ Hae) as (Hlead & Hlen & _).
+    destruct (agl3 s Hinv j _ eq_refl Hlead) as (Hag & _).
+    destruct (i_commit_bounds _ H3a j) as (Hc & _).
+    apply Hne. rewrite Hview.
+    rewrite (agree_term_at _ ci _ _ Hag) by lia.
+    symmetry. apply term_at_firstn. lia.
+  Qed.
+
+  Theorem heartbeat_commit_in_range3 s j t ldr c :
+    reachable3 s -> In (HB t ldr j c) (msgs (base3 s)) -> t = term (nodes (base3 s) j) ->
+    c <= length (log (nodes (base3 s) j)).
+  Proof.
+    intros Hr Hhb ->. pose proof (inv4_reachable s Hr) as Hinv.
+    pose proof (s_3a _ _ s Hinv) as H3a.
+    destruct (s_hb _ _ s Hinv _ _ _ _ Hhb) as [->|(Hack & _)]; [lia|].
+    pose proof (acked_len _ _ _ _ (i_ack_le _ H3a) Hack) as Hl.
+    destruct (i_ack_node _ H3a _ _ _ Hack) as [Hag|(U & HU & _)]; [|lia].
+    apply agree_sym in Hag. eapply agree_len; eauto.
+  Qed.
+
   (* ---- leader completeness, event form ---- *)
 
   Lemma step3_mono s l s' :
@@ -348,6 +386,9 @@ Section Packaged.
   Definition one_unapplied_cc_in_leader_log_c := one_unapplied_cc_in_leader_log cfg_of is_cc A B C D.
   Definition one_cc_above_commit_c := one_cc_above_commit cfg_of is_cc A B C D.
   Definition committed_never_replaced3_c := committed_never_replaced3 cfg_of is_cc A B C D.
+  Definition append_never_conflicts_with_committed3_c :=
+    append_never_conflicts_with_committed3 cfg_of is_cc A B C D.
+  Definition heartbeat_commit_in_range3_c := heartbeat_commit_in_range3 cfg_of is_cc A B C D.
 End Packaged.
 
 (* the contract holds for the concrete membership function *)
